@@ -13,6 +13,7 @@ from ..core import fmt_list, fmt_ints, fmt_opt, parse_rats, frac, err_kind, clos
 from .c10 import spec as search_spec
 
 ID = "C01"
+THREADS = True       # part of the cases run concurrently in threads of one interpreter (the schedule dimension)
 MODULES = ["TWV.Properties.C01", "TWV.Tie.Vector"]
 TRANSLATORS = ["t3_vector"]
 RULE = ("random structured cases of integral_matching_reference_stretch: n in 3..60 (thorough ..400), uniform / lattice-random "
